@@ -151,8 +151,11 @@ def identity_execute(case, stats):
         random.seed(case["rng"] ^ 0x5A5A)
         cl2 = HttpBeaconClient()
         cfg2 = config()  # one configuration object, used for the first run and the re-run of cl2
-        lib(cl2.run, cfg2, dry_run=True, beacon_id=got, user="u", computer="c", process="p", what="second run")
-        eq(cl2.aes_rand, cl.aes_rand, "identity:keys_not_deterministic", f"aes_rand for id {got} across two runs")
+        # ... and any of the other optional arguments are given or left out
+        extras = {"pid": 4242, "arch": "x64", "internal_ip": "10.1.2.3", "high_integrity": True, "ansi_cp": 1252, "oem_cp": 437}
+        extra2 = {k: v for n, (k, v) in enumerate(sorted(extras.items())) if (case["rng"] >> n) & 1}
+        lib(cl2.run, cfg2, dry_run=True, beacon_id=got, user="u", computer="c", process="p", what="second run", **extra2)
+        eq(cl2.aes_rand, cl.aes_rand, "identity:keys_not_deterministic", f"aes_rand for id {got} across two runs (second run with {sorted(extra2)})")
         # running the SAME client object again with another id must behave like a fresh client of that id
         other = (got + 2 * (1 + case["rng"] % 1000)) % 2**31
         fresh = HttpBeaconClient()
